@@ -278,7 +278,8 @@ func genGE(cfg *config, r *rng, i int, s *sink) string {
 			off = tol * pick(r, []float64{0.97, 1.03, 0.5, 1.5, 0.985, 1.02})
 		}
 		if kind == "dtl" {
-			off = r.float01() * 300 * scale
+			// centimetres to a few hundred metres: the 1% bound bites for near positions too
+			off = math.Pow(10, -2+r.float01()*4.5) * scale
 		}
 		side := 90.0
 		if r.bool() {
